@@ -21,6 +21,7 @@ from ..seams.simfunc import SimFunction, SimFault, SimInterrupt, random_spec
 EPS = 1.e-7
 K_BOUND = 1.0          # |cache - f| <= K * sum_ij H_i H_j max|d2f/dxi dxj| ; calibrated, see DESIGN
 RTOL = 1e-9
+NOISE_FLOOR = {1: 0.0, 2: 1e-8, 3: 1e-6}
 
 
 def node_layout(lo, hi, res):
@@ -207,7 +208,9 @@ class CachingMachine(Machine):
         c.scale = max(1.0, c.ref.abs_bound(box))
         fb = self._fb(cfg)
         c.range = max(c.scale, abs(fb[1] - fb[0]) if fb else 0.0)
-        c.tol_f = (RTOL + min(conditioning(cfg["area"], cfg["res"]), 1e-4)) * c.range
+        # comparisons with the wrapped function: power-basis model + a per-dimension floor for the rounding noise of the
+        # 4^d x 4^d linear solve (worst seen in 700k thorough runs: 3e-13 / 6e-10 / 1.5e-8 of the range in 1-/2-/3-D)
+        c.tol_f = (RTOL + NOISE_FLOOR[c.dim] + min(conditioning(cfg["area"], cfg["res"]), 1e-4)) * c.range
         c.nodes = [node_layout(a[0], a[1], r) for a, r in zip(cfg["area"], cfg["res"])]
         H = []
         for nd, r in zip(c.nodes, cfg["res"]):
